@@ -6,6 +6,8 @@
 #include "imgworld.h"
 #include "../models/refclm.h"
 #include "../models/refmap.h"
+#include "../models/reflzh.h"
+#include "../models/refvol.h"
 #include "Archive/ClmFile.h"
 #include "Archive/VolFile.h"
 #include "Map/Map.h"
@@ -122,6 +124,9 @@ struct TwinEnv : Family {
 		p.setenv("spell_b", r.below(4));
 		size_t nscen = static_cast<size_t>(r.range(2, 5));
 		static const char* SC[] = {"vol", "clm", "defaults", "map", "bmp", "tileset", "prt"};
+		// now and then: a reference-encoded volume with LZH members, one of which cannot be decoded to its end (it needs more symbol
+		// updates than the counters hold); whether that member was asked for before the others, on the same object, is environment
+		if (r.chance(1, 25)) { Line op = mkline("op", "volx"); op.set("seed", hex64(r.next())).set("n", r.range(2, 4)); p.ops.push_back(op); }
 		for (size_t i = 0; i < nscen; ++i) {
 			std::string sc = i == 0 ? "defaults" : SC[r.below(7)];
 			Line op = mkline("op", sc);
@@ -287,6 +292,51 @@ struct TwinEnv : Family {
 						}
 					}, &what), "by-name queries");
 				}
+			} else if (v == "volx") {
+				Rng xr(op.u("seed", 1));
+				std::vector<ref::VolMember> ms;
+				size_t n = static_cast<size_t>(op.u("n", 2));
+				std::map<std::string, std::vector<uint8_t>> decoded;
+				for (size_t k = 0; k < n; ++k) {
+					ref::VolMember m;
+					m.name = "m" + std::to_string(k) + ".lzh";
+					std::vector<uint8_t> payload = prngBytes(xr.next(), 200 + static_cast<size_t>(xr.below(3000)));
+					for (auto& c : payload) c = static_cast<uint8_t>('a' + c % 7);
+					m.stored = ref::lzhEncode(ref::tokenize(payload, xr.next()));
+					m.kind = 0x103;
+					decoded[m.name] = ref::lzhDecode(m.stored).out;
+					m.size = static_cast<uint32_t>(decoded[m.name].size());
+					ms.push_back(m);
+				}
+				{
+					// the member that runs into the counter capacity: more than 65221 codes (reference encoder with wide counters)
+					ref::VolMember bad;
+					bad.name = "m1x.lzh"; // sorts between m1 and m2
+					bad.stored = ref::lzhEncode(ref::skewedTokens(xr.next(), 66000, 1, 2, false), nullptr, true);
+					bad.kind = 0x103;
+					bad.size = 70000;
+					ms.insert(ms.begin() + 2 <= ms.end() ? ms.begin() + 2 : ms.end(), bad);
+				}
+				ref::VolImage im = ref::encodeVol(ms);
+				std::string vp = "vxin" + std::to_string(oi) + "/x.vol";
+				disk::put(vp, im.bytes);
+				bool badFirst = (e.stack & 1) != 0;
+				must(callLib(plan, [&] {
+					Archive::VolFile vf(vp);
+					auto extractBad = [&] { try { vf.ExtractFile(static_cast<Archive::ArchiveFile&>(vf).GetIndex("m1x.lzh"), "vxout" + std::to_string(oi) + "/bad.bin"); } catch (const std::runtime_error&) {} };
+					disk::mkdirs("vxout" + std::to_string(oi) + "/_s");
+					if (badFirst) extractBad();
+					size_t q = 0;
+					for (auto& m : ms) {
+						if (m.name == "m1x.lzh") continue;
+						std::string dst = "vxout" + std::to_string(oi) + "/" + m.name;
+						vf.ExtractFile(static_cast<Archive::ArchiveFile&>(vf).GetIndex(m.name), dst);
+						std::vector<uint8_t> f; disk::get(dst, f);
+						out[key + ":volx:" + m.name] = f;
+						if (!badFirst && q++ == 0) extractBad(); // the other environment meets the failing member later
+					}
+				}, &what), "extracting LZH members of a reference volume");
+				for (auto& kv : decoded) if (out[key + ":volx:" + kv.first] != kv.second) ctx.count("probe.volx_extraction_differs_from_reference_decoder");
 			} else if (v == "clm") {
 				std::vector<std::string> list;
 				std::string dir = "cin" + std::to_string(oi);
